@@ -46,6 +46,8 @@ var guardTargets = []target{
 			"glow.CurrentTimeslot()":      {"now", bv(32)},
 			"gcas.equipmentReportsOffset": {"off", bv(32)},
 		}},
+	{Name: "Gen.WeekData", Tags: "", Pkg: "server", Func: "GCAServer.managedGetWattTimeWeekData",
+		Leaves: map[string]leaf{}},
 	{Name: "Gen.StatsHandler", Tags: "test", Pkg: "server", Func: "GCAServer.AllDeviceStatsHandler",
 		Leaves: map[string]leaf{
 			"uint32(tsoU64)":            {"tso", bv(32)},
